@@ -499,6 +499,21 @@ func templates(k *chain.Keys) []template {
 			}
 			return w.UseV2Revise(e, e.V2FileContract, 1), true
 		}, func(path string) bool { return path == ".ArbitraryData[append]" || strings.HasPrefix(path, ".ArbitraryData") }},
+		{"v2 contract revision handing the HOST role to another key (signed by the current keys)", func(w *chain.World) (chain.Use, bool) {
+			e, ok := contract(w)
+			if !ok || !v2ok(w) || e.V2FileContract.RevisionNumber >= 1<<62 {
+				return chain.Use{}, false
+			}
+			cur := e.V2FileContract
+			rev := cur
+			rev.RevisionNumber++
+			rev.HostPublicKey = k.Pub[3]
+			if cur.HostPublicKey == k.Pub[3] {
+				rev.HostPublicKey = k.Pub[1]
+			}
+			w.SignContract(&rev, keyIndex(k, cur.RenterPublicKey), keyIndex(k, cur.HostPublicKey))
+			return chain.Use{Name: "v2revise-hostkey", V2: &types.V2Transaction{FileContractRevisions: []types.V2FileContractRevision{{Parent: e.Copy(), Revision: rev}}}}, true
+		}, func(path string) bool { return strings.HasPrefix(path, ".ArbitraryData") }},
 		{"v2 contract revision after a key rotation earlier in the same block", func(w *chain.World) (chain.Use, bool) {
 			e, ok := contract(w)
 			if !ok || !v2ok(w) || e.V2FileContract.RevisionNumber > 1<<60 {
@@ -801,6 +816,23 @@ func probeTemplate(c *vf.Ctx, w *chain.World, tp template) {
 			w.SignContract(&r.Revision, 3, 3)
 			check("revision signed by the proposed (new) keys instead of the current keys")
 			r.Revision = old
+			// ONE role taken over: only that role's key is replaced and only that role's signature is made by the new
+			// key; the other party signs the new contents with its current key (a renter that appoints itself host)
+			curP := r.Parent.V2FileContract
+			if ri, hi := keyIndex(k, curP.RenterPublicKey), keyIndex(k, curP.HostPublicKey); len(u.Before) == 0 {
+				r.Revision.HostPublicKey = k.Pub[3]
+				w.SignContract(&r.Revision, ri, 3)
+				if curP.HostPublicKey != k.Pub[3] {
+					check("host key replaced and the host signature made by the NEW host key (renter signs with its current key)")
+				}
+				r.Revision = old
+				r.Revision.RenterPublicKey = k.Pub[3]
+				w.SignContract(&r.Revision, 3, hi)
+				if curP.RenterPublicKey != k.Pub[3] {
+					check("renter key replaced and the renter signature made by the NEW renter key (host signs with its current key)")
+				}
+				r.Revision = old
+			}
 			r.Revision.RenterSignature, r.Revision.HostSignature = old.HostSignature, old.RenterSignature
 			check("swap renter and host signatures")
 			r.Revision = old
@@ -1169,6 +1201,101 @@ func renewalAfterRotation(c *vf.Ctx, w *chain.World) {
 	c.Count("renewal_after_rotation_probes", 1)
 }
 
+// foundationAfterHandover: "Foundation subsidy addresses change only in a transaction authorized by the CURRENT Foundation
+// keys". A first transaction of the block (authorised by the current key) hands the Foundation address over to another
+// key; a later transaction of the same block carries a further update (a) authorised by the key the address was handed
+// to - must be accepted, (b) authorised by the handed-over (old) key, spending the first transaction's change - must be
+// rejected. v2 form (NewFoundationAddress) and v1 form (arbitrary data).
+func foundationAfterHandover(c *vf.Ctx, w *chain.World) {
+	k := w.Keys
+	h := w.ChildHeight()
+	name := "foundation update after a hand-over earlier in the same block"
+	whole := types.CoveredFields{WholeTransaction: true}
+	v2ok := func(w *chain.World) bool { return w.ChildHeight() >= w.Net.HardforkV2.AllowHeight }
+	tc := tcase{Network: w.Spec.Name, Height: h, Template: name, Seed: c.Seed}
+	validate := func(u chain.Use) (bool, any) {
+		b, bs := w.BlockOfUses(u)
+		var err error
+		p, _ := vf.Try(func() { err = w.Validate(b, bs) })
+		c.Count("evaluations", 1)
+		c.Count("transitions", 1)
+		return err == nil && p == nil, p
+	}
+	verdicts := func(form string, first, byNew, byOld chain.Use, haveNew bool) {
+		if ok, _ := validate(first); !ok {
+			return
+		}
+		c.Count("foundation_handover_probes", 1)
+		if haveNew {
+			byNew.Before = []chain.Use{first}
+			c.Distinct(w.Spec.Name, h, name, form, "new key")
+			if acc, p := validate(byNew); p == nil && !acc {
+				c.Violate("C03|untampered-rejected|"+name+"|"+form, fmt.Sprintf("[%s height %d] %s foundation update authorised by the key the address was handed to earlier in the block was rejected", w.Spec.Name, h, form), tc)
+			} else if acc {
+				c.Count("foundation_handover_new_key_accepted", 1)
+			}
+		}
+		byOld.Before = []chain.Use{first}
+		c.Distinct(w.Spec.Name, h, name, form, "old key")
+		t := tc
+		t.Tamper = form + " update authorised by the handed-over (old) key"
+		if acc, p := validate(byOld); p == nil && acc {
+			c.Violate("C03|tampered-accepted|"+name+"|"+t.Tamper, fmt.Sprintf("[%s height %d] a %s foundation update authorised only by the key that a transaction earlier in the block had handed the address away from was ACCEPTED", w.Spec.Name, h, form), t)
+		} else if !acc {
+			c.Count("foundation_handover_old_key_rejected", 1)
+		}
+	}
+	if v2ok(w) && w.CS.FoundationManagementAddress == k.Addr(chain.AddrFndV2) {
+		if p, ok := findSC(w, k.Addr(chain.AddrFndV2)); ok {
+			to, thief := k.Addr(chain.AddrV2b), k.Addr(chain.AddrV2)
+			t1 := types.V2Transaction{SiacoinInputs: []types.V2SiacoinInput{{Parent: p}}, SiacoinOutputs: []types.SiacoinOutput{{Value: p.SiacoinOutput.Value, Address: k.Addr(chain.AddrFndV2)}}, NewFoundationAddress: &to}
+			w.SignV2(&t1)
+			first := chain.Use{Name: "hand-over", V2: &t1}
+			// (b) the old key spends the change of t1 (still at the old address)
+			t2 := types.V2Transaction{SiacoinInputs: []types.V2SiacoinInput{{Parent: t1.EphemeralSiacoinOutput(0)}}, SiacoinOutputs: []types.SiacoinOutput{{Value: p.SiacoinOutput.Value, Address: thief}}, NewFoundationAddress: &thief}
+			w.SignV2(&t2)
+			byOld := chain.Use{Name: "update-by-old-key", V2: &t2}
+			var byNew chain.Use
+			q, haveNew := findSC(w, to)
+			if haveNew {
+				t3 := types.V2Transaction{SiacoinInputs: []types.V2SiacoinInput{{Parent: q}}, SiacoinOutputs: []types.SiacoinOutput{{Value: q.SiacoinOutput.Value, Address: to}}, NewFoundationAddress: &thief}
+				w.SignV2(&t3)
+				byNew = chain.Use{Name: "update-by-new-key", V2: &t3}
+			}
+			verdicts("v2", first, byNew, byOld, haveNew)
+		}
+	}
+	if h < w.Net.HardforkV2.RequireHeight && h >= w.Net.HardforkFoundation.Height && w.CS.FoundationSubsidyAddress == k.Addr(chain.AddrFnd) && w.CS.FoundationManagementAddress != k.Addr(chain.AddrFnd) {
+		if p, ok := findSC(w, k.Addr(chain.AddrFnd)); ok {
+			upd := func(np, nf types.Address) []byte {
+				arb := append([]byte(nil), types.SpecifierFoundation[:]...)
+				return append(append(arb, np[:]...), nf[:]...)
+			}
+			// hand BOTH addresses to key 1 (class AddrV1b)
+			to := k.Addr(chain.AddrV1b)
+			t1 := types.Transaction{SiacoinInputs: []types.SiacoinInput{{ParentID: p.ID, UnlockConditions: k.StdUC(3)}},
+				SiacoinOutputs: []types.SiacoinOutput{{Value: p.SiacoinOutput.Value, Address: k.Addr(chain.AddrFnd)}}, ArbitraryData: [][]byte{upd(to, to)}}
+			signV1With(w, &t1, types.Hash256(p.ID), []int{3}, []uint64{0}, whole, 0)
+			first := chain.Use{Name: "hand-over", V1: &t1}
+			thief := k.Addr(chain.AddrV1)
+			t2 := types.Transaction{SiacoinInputs: []types.SiacoinInput{{ParentID: t1.SiacoinOutputID(0), UnlockConditions: k.StdUC(3)}},
+				SiacoinOutputs: []types.SiacoinOutput{{Value: p.SiacoinOutput.Value, Address: thief}}, ArbitraryData: [][]byte{upd(thief, thief)}}
+			signV1With(w, &t2, types.Hash256(t1.SiacoinOutputID(0)), []int{3}, []uint64{0}, whole, 0)
+			byOld := chain.Use{Name: "update-by-old-key", V1: &t2}
+			var byNew chain.Use
+			q, haveNew := findSC(w, to)
+			if haveNew {
+				t3 := types.Transaction{SiacoinInputs: []types.SiacoinInput{{ParentID: q.ID, UnlockConditions: k.StdUC(1)}},
+					SiacoinOutputs: []types.SiacoinOutput{{Value: q.SiacoinOutput.Value, Address: to}}, ArbitraryData: [][]byte{upd(thief, thief)}}
+				signV1With(w, &t3, types.Hash256(q.ID), []int{1}, []uint64{0}, whole, 0)
+				byNew = chain.Use{Name: "update-by-new-key", V1: &t3, SuppSC: []types.SiacoinElement{q.Copy()}}
+			}
+			first.SuppSC = []types.SiacoinElement{p.Copy()}
+			verdicts("v1", first, byNew, byOld, haveNew)
+		}
+	}
+}
+
 func ephemeralThief(c *vf.Ctx, w *chain.World) {
 	k := w.Keys
 	h := w.ChildHeight()
@@ -1360,11 +1487,12 @@ func run(c *vf.Ctx) {
 			unauthorizedFoundation(c, w)
 			ephemeralThief(c, w)
 			renewalAfterRotation(c, w)
+			foundationAfterHandover(c, w)
 			coveredBinding(c, w)
 		})
 		c.Count("traces_validated_against_impl", 1)
 	})
-	need := []string{"untampered_accepted", "tampered_rejected", "era_replay_rejected", "unauthorized_foundation_rejected", "partial_sighash_binding_checked", "ephemeral_thief_rejected", "retarget_probes", "renewal_after_rotation_probes"}
+	need := []string{"untampered_accepted", "tampered_rejected", "era_replay_rejected", "unauthorized_foundation_rejected", "partial_sighash_binding_checked", "ephemeral_thief_rejected", "retarget_probes", "renewal_after_rotation_probes", "foundation_handover_probes"}
 	for _, tp := range tps {
 		need = append(need, "template:"+tp.name)
 	}
@@ -1389,6 +1517,15 @@ func replay(c *vf.Ctx, raw json.RawMessage) {
 			if w.ChildHeight() == tc.Height {
 				c.Count("states", 1)
 				renewalAfterRotation(c, w)
+			}
+		})
+		return
+	}
+	if tc.Template == "foundation update after a hand-over earlier in the same block" {
+		worlds(c, chain.Spec(tc.Network), keys, tc.Height, func(w *chain.World) {
+			if w.ChildHeight() == tc.Height {
+				c.Count("states", 1)
+				foundationAfterHandover(c, w)
 			}
 		})
 		return
